@@ -998,6 +998,7 @@ def relate(from_instance, to_instance, rel_id, phrase=''):
         raise RelateException(from_instance, to_instance, rel_id, phrase)
 
     if not ass.target_link.connect(inst2, inst1):
+        ass.source_link.disconnect(inst1, inst2)
         raise RelateException(from_instance, to_instance, rel_id, phrase)
     
     return True
